@@ -39,6 +39,10 @@ pub enum BuildOp {
     Bearer(String),
     Param(String, String),
     Params(Vec<(String, String)>),
+    /// `query(&pairs)`: the serde-serialised pairs are appended to the query like params
+    Query(Vec<(String, String)>),
+    /// the header map edited in place through `headers_mut()` (insert or append)
+    HeadersMut { name: String, value: HeaderVal, append: bool },
 }
 
 #[derive(Debug, Clone, Serialize, Deserialize)]
@@ -284,6 +288,8 @@ pub fn build_op() -> BoxedStrategy<BuildOp> {
         1 => "[!-~]([ -~]{0,20}[!-~])?".prop_map(BuildOp::Bearer),
         2 => (urlgen::arb_text(8), urlgen::arb_text(8)).prop_map(|(k, v)| BuildOp::Param(k, v)),
         1 => urlgen::pairs(4).prop_map(BuildOp::Params),
+        1 => urlgen::pairs(3).prop_map(BuildOp::Query),
+        1 => (header_name(), header_value(), any::<bool>()).prop_map(|(name, value, append)| BuildOp::HeadersMut { name, value, append }),
     ]
     .boxed()
 }
@@ -298,6 +304,9 @@ pub struct Case {
     /// see c15::SHORT_WRITES: the transport accepts at most that many bytes per write call (0 = all)
     #[serde(default)]
     pub short_write: u8,
+    /// for the eight standard methods: start from the free function (attohttpc::get, post, ...) instead of RequestBuilder::try_new
+    #[serde(default)]
+    pub via_free_fn: bool,
 }
 
 pub struct C07;
@@ -354,6 +363,22 @@ pub fn apply_ops<B>(mut rb: attohttpc::RequestBuilder<B>, ops: &[BuildOp], model
             BuildOp::Params(ps) => {
                 rb = rb.params(ps.iter().map(|(k, v)| (k.as_str(), v.as_str())).collect::<Vec<_>>());
                 params.extend(ps.iter().cloned());
+            }
+            BuildOp::Query(ps) => {
+                rb = rb.query(ps).expect("string pairs serialise as a query");
+                params.extend(ps.iter().cloned());
+            }
+            BuildOp::HeadersMut { name, value, append } => {
+                let hn = http::header::HeaderName::from_bytes(name.as_bytes()).expect("generated header name is a token");
+                let v = value.bytes();
+                let hv = http::HeaderValue::from_bytes(&v).expect("valid header value");
+                if *append {
+                    rb.headers_mut().append(hn, hv);
+                    model_append(model, name, v);
+                } else {
+                    rb.headers_mut().insert(hn, hv);
+                    model_set(model, name, v);
+                }
             }
         }
     }
@@ -575,11 +600,11 @@ non-trivial = a body or >= 1 param or a custom program with >= 2 writes";
             urlgen::url_spec(true, false),
             proptest::collection::vec(build_op(), 0..7),
             body_spec(),
-            (prop::bool::weighted(0.8), crate::props::c15::short_write_strategy()),
+            (prop::bool::weighted(0.8), crate::props::c15::short_write_strategy(), any::<bool>()),
         )
-            .prop_map(|(method, url, ops, body, (allow_compression, short_write))| {
+            .prop_map(|(method, url, ops, body, (allow_compression, short_write, via_free_fn))| {
                 let method = if method == "CONNECT" { "CONNECTX".to_string() } else { method };
-                Case { method, url, ops, body, allow_compression, short_write }
+                Case { method, url, ops, body, allow_compression, short_write, via_free_fn }
             })
             .boxed()
     }
@@ -592,12 +617,43 @@ non-trivial = a body or >= 1 param or a custom program with >= 2 writes";
         let (_guard, net) = serve_scripts(vec![ok_response()]);
         let mut model: HeaderModel = BTreeMap::new();
         let mut params: Vec<(String, String)> = case.url.query.clone().unwrap_or_default();
-        let rb = match attohttpc::RequestBuilder::try_new(method, &url) {
-            Ok(rb) => rb,
-            Err(e) => return Outcome::fail("C07:url-rejected", format!("try_new rejected {url:?}: {e:?}")),
+        let free: Option<fn(&str) -> attohttpc::RequestBuilder> = match (case.via_free_fn, case.method.as_str()) {
+            (true, "GET") => Some(|u| attohttpc::get(u)),
+            (true, "POST") => Some(|u| attohttpc::post(u)),
+            (true, "PUT") => Some(|u| attohttpc::put(u)),
+            (true, "DELETE") => Some(|u| attohttpc::delete(u)),
+            (true, "HEAD") => Some(|u| attohttpc::head(u)),
+            (true, "OPTIONS") => Some(|u| attohttpc::options(u)),
+            (true, "PATCH") => Some(|u| attohttpc::patch(u)),
+            (true, "TRACE") => Some(|u| attohttpc::trace(u)),
+            _ => None,
+        };
+        ctx.label_if(free.is_some(), "built-with-free-function");
+        let rb = match free {
+            Some(f) => f(&url),
+            None => match attohttpc::RequestBuilder::try_new(method, &url) {
+                Ok(rb) => rb,
+                Err(e) => return Outcome::fail("C07:url-rejected", format!("try_new rejected {url:?}: {e:?}")),
+            },
         };
         let rb = rb.proxy_settings(no_proxy()).allow_compression(case.allow_compression);
-        let rb = apply_ops(rb, &case.ops, &mut model, &mut params);
+        let mut rb = apply_ops(rb, &case.ops, &mut model, &mut params);
+        // what the inspector shows before sending is what will be sent
+        {
+            let insp = rb.inspect();
+            if insp.method().as_str() != case.method {
+                return Outcome::fail("C07:inspect-method", format!("inspect().method() = {}, built with {}", insp.method(), case.method));
+            }
+            let qp: Vec<(String, String)> = insp.url().query_pairs().map(|(k, v)| (k.into_owned(), v.into_owned())).collect();
+            if qp != params {
+                return Outcome::fail("C07:inspect-url", format!("inspect().url() carries the query pairs {qp:?}, the builder was given {params:?}"));
+            }
+            let names: std::collections::BTreeSet<String> = insp.headers().keys().map(|k| k.as_str().to_string()).collect();
+            let want: std::collections::BTreeSet<String> = model.keys().cloned().collect();
+            if names != want {
+                return Outcome::fail("C07:inspect-headers", format!("inspect().headers() has the names {names:?}, the builder was given {want:?}"));
+            }
+        }
         let sent = send_with_body(rb, &case.body);
         if let BodySpec::Custom(p) = &case.body {
             if p.ops.iter().any(|o| matches!(o, WOp::Fail)) {
